@@ -27,6 +27,8 @@ func main() {
 	switch os.Args[1] {
 	case "rslquery":
 		err = fam.RSLQuery(*scn, *out, *seed, *n)
+	case "propagation":
+		err = fam.Propagation(*scn, *out, *seed, *n)
 	case "trees":
 		err = fam.Trees(*scn, *out, *seed, *n)
 	case "policyapply":
